@@ -497,6 +497,8 @@ impl KeyGenerator {
         let coeff_modulus_size = coeff_modulus.len();
         let coeff_count = parms.poly_modulus_degree();
 
+        #[cfg(feature = "verif")]
+        crate::verif::yield_point("keygen.sk_array.before_read");
         // Aquire read lock
         let read_lock = self.secret_key_array.read().unwrap();
         assert!(read_lock.len() % (coeff_count * coeff_modulus_size) == 0);
@@ -515,6 +517,8 @@ impl KeyGenerator {
         secret_key_array[..old_size * poly_size].copy_from_slice(&read_lock[..old_size * poly_size]);
         // Drop lock
         drop(read_lock);
+        #[cfg(feature = "verif")]
+        crate::verif::yield_point("keygen.sk_array.after_read");
         
         // Since all of the key powers in secret_key_array_ are already NTT transformed, to get the next one we simply
         // need to compute a dyadic product of the last one with the first one [which is equal to NTT(secret_key_)].
@@ -530,6 +534,8 @@ impl KeyGenerator {
             }
         }
 
+        #[cfg(feature = "verif")]
+        crate::verif::yield_point("keygen.sk_array.before_write");
         // Aquire write lock
         let mut write_lock = self.secret_key_array.write().unwrap();
 
@@ -607,6 +613,8 @@ impl KeyGenerator {
 
         // Make sure we have enough secret keys computed
         self.compute_secret_key_array(count + 1);
+        #[cfg(feature = "verif")]
+        crate::verif::yield_point("keygen.rlk.before_read");
 
         // Create the RelinKeys object to return
         let mut relin_keys = RelinKeys::default();
@@ -683,6 +691,29 @@ impl KeyGenerator {
 }
 
 
+
+#[cfg(feature = "verif")]
+impl KeyGenerator {
+    /// Number of secret key powers currently cached (read under the cache's own lock).
+    pub fn verif_key_powers(&self) -> usize {
+        let key_context_data = self.context.key_context_data().unwrap();
+        let parms = key_context_data.parms();
+        let guard = self.secret_key_array.read().unwrap();
+        guard.len() / (parms.poly_modulus_degree() * parms.coeff_modulus().len())
+    }
+    /// Snapshot of the cached key powers (read under the cache's own lock).
+    pub fn verif_key_array(&self) -> Vec<u64> {
+        self.secret_key_array.read().unwrap().clone()
+    }
+    /// Request secret key powers up to `max_power` (the public API only ever requests 2).
+    pub fn verif_compute_powers(&self, max_power: usize) {
+        self.compute_secret_key_array(max_power);
+    }
+    /// Generate relinearization keys for `count` key powers (public API: count = 1).
+    pub fn verif_create_relin_keys(&self, count: usize, save_seed: bool) -> RelinKeys {
+        self.generate_rlk(count, save_seed)
+    }
+}
 
 #[cfg(test)]
 mod tests {
